@@ -481,7 +481,7 @@ func TestC25(t *testing.T) {
 			c["model"] = true
 			yield(c)
 		}
-		n := vt.Pick(150, 3000)
+		n := vt.Pick(150, 800)
 		for i := 0; i < n; i++ {
 			yield(randomRequest(rnd, i))
 		}
